@@ -171,7 +171,12 @@ def gen_case(rng, tier, pid, n):
         for r in reacs:
             r.idx += 1000 * rng.randint(1, 9)          # database-style indices, far away from the positions
         ratemod[rng.choice(reacs).idx] = rng.choice(["0.0", "1.0e-10"])
-    if pid == "C13" and reacs and rng.random() < 0.8:
+    zero_based = pid == "C13" and reacs and indexed and (n == 5 or rng.random() < 0.2)
+    if zero_based:
+        # reactions numbered from 0 (a list index used as the reaction number): 0 is a number like any other
+        for r in reacs:
+            r.idx -= 1
+    if pid == "C13" and reacs and (zero_based or rng.random() < 0.8):
         shared = None
         if indexed and rng.random() < 0.4 and len(reacs) >= 2:
             # an index shared by several reactions (one KIDA/UMIST reaction listed once per temperature range)
@@ -190,10 +195,27 @@ def gen_case(rng, tier, pid, n):
             ratemod[key] = rng.choice(["1.0e-10", "2.0 * zeta", "1e-9*exp(-10.0/Tgas)", "0.0", LONG_RATE])
         if shared is not None and rng.random() < 0.8:
             ratemod[shared] = rng.choice(["3.0e-10", "2.0 * zeta"])
+        if zero_based and any(r.idx == 0 for r in reacs):
+            ratemod[0] = rng.choice(["1.5e-10", "2.0 * zeta"])
         if n in (2, 3) and idxs and idxs != [99999]:
             for j, i_ in enumerate((idxs if indexed else list(range(len(reacs))))[:4]):
                 ratemod[i_] = LONG_RATES[j]          # (four offsets: at least one column limit falls inside a token)
-    return {"species": sub, "reacs": reacs, "required": required, "entry": entry, "cooling": cooling,
+    krome_header = None
+    if pid == "C04" and n in (7, 8, 9) and not cooling and config == "default":
+        # (the KROME route carries gas-phase reactions without pseudo-reactants: keep those)
+        ok_ = [r for r in reacs if not r.pseudo_re and not r.pseudo_pr and len(r.re) <= 3 and len(r.pr) <= 5 and r.rtype == 100
+               and all(s.kind in ("gas", "electron") for s in r.re + r.pr)]
+        if len(ok_) >= 2:
+            reacs = ok_
+            used = {s.key for r in reacs for s in r.re + r.pr}
+            required = [s for s in required if s.kind in ("gas", "electron")]
+    if pid == "C04" and reacs and not cooling and config == "default" and (n in (7, 8, 9) or rng.random() < 0.15) \
+            and all(not r.pseudo_re and not r.pseudo_pr and len(r.re) <= 3 and len(r.pr) <= 5 and r.rtype == 100 for r in reacs) \
+            and all(s.kind in ("gas", "electron") for r in reacs for s in r.re + r.pr):
+        entry = "krome"
+        krome_header = rng.choice(["@format:r,r,r,p,p,p,p,p,tmin,tmax,rate", "@format:R,R,R,P,P,P,P,P,Tmin,Tmax,rate",
+                                   "@format:r,r,r,p,p,p,p,p,Tmin,Tmax,rate", "@format:tmin,tmax,r,r,r,p,p,p,p,p,rate"])
+    return {"species": sub, "reacs": reacs, "required": required, "entry": entry, "cooling": cooling, "krome_header": krome_header,
             "mods": mods, "ratemod": ratemod, "indexed": indexed, "config": config, "heating": heating}
 
 
@@ -328,6 +350,18 @@ def build_network(case, scratch: Path, with_mods=True, with_ratemod=True):
             f = scratch / "net.naunet"
             f.write_text("".join(netgen.native_line(r) + "\n" for r in reacs))
             files, fmts = [f], ["naunet"]
+        elif entry == "krome":
+            # a KROME file whose column layout is stated without an index column (several spellings of the header)
+            f = scratch / "net.krome"
+            hdr = case.get("krome_header", "@format:r,r,r,p,p,p,p,p,tmin,tmax,rate")
+            rows = []
+            for r in reacs:
+                ri, pi = iter([s.name for s in r.re] + [""] * 3), iter([s.name for s in r.pr] + [""] * 5)
+                cell = {"r": lambda: next(ri), "p": lambda: next(pi), "tmin": lambda: "NONE", "tmax": lambda: "NONE",
+                        "rate": lambda: f"{r.alpha:.3e}".replace("e", "d")}
+                rows.append(",".join(cell[k.lower()]() for k in hdr.split(":", 1)[1].split(",")))
+            f.write_text(hdr + "\n" + "\n".join(rows) + "\n")
+            files, fmts = [f], ["krome"]
         elif entry == "umist":
             # alternating runs of lines that fit the RATE12 columns (UMIST files) and lines that do not (native files), in order
             files, fmts, run, fit = [], [], [], None
